@@ -327,6 +327,54 @@ CHECKS = {
 
 NOT_YET = 'check not built yet in this revision (work in progress)'
 
+OVERLAP = (' Scenarios named /overlap additionally let a transaction that '
+           'has only read so far be overtaken by complete transactions of '
+           'other activities before its first write or lock (the overlap '
+           'READ COMMITTED permits, DESIGN 10.6); overlap after a write is '
+           'not explored.')
+# additions of session 3 (DESIGN 10.3 has the full table)
+EXTRA_TEXT = {
+    'C01': ' Corpus: curated programs incl. bounded cycles and nested '
+           'joins, every direct DAG shape over <= 3 tasks (exhausted), join '
+           'programs also over the real DefaultScheduler (dispatcher + '
+           'pool).',
+    'C02': ' A third mode runs the join programs over the real '
+           'DefaultScheduler and compares outcomes across scheduler '
+           'implementations; repository-bundled workflows (tests/resources, '
+           'rally-jobs) run with their real std actions under the '
+           'differential oracle.',
+    'C04': ' First assignment of every join shape also over the '
+           'DefaultScheduler; requires-graphs also with a requirement '
+           'coming from task-defaults.',
+    'C05': ' Value catalogue: null, falsy, container and shape-changing '
+           'values, dropped keys.',
+    'C06': ' Stateful programs (paused asynchronous action, paused / '
+           'running sub-workflow, waits, retry delay, with-items) combine '
+           'the duplicate with the operator commands that produce those '
+           'task states.',
+    'C07': ' n=2 scenarios also over the DefaultScheduler; failed '
+           'sub-workflow items repaired from the inside under a concurrency '
+           'limit.',
+    'C08': ' Every scenario over both scheduler implementations; policies '
+           'around with-items and sub-workflow tasks.',
+    'C09': ' Children called by global, workbook-relative and '
+           'expression-valued names; retry policy around the sub-workflow '
+           'task.',
+    'C10': ' Pause during retry delays, waits, with-items and around a '
+           'sub-workflow (root and child); K=1 in quick.',
+    'C11': ' The same stop repeated on the finished execution; results '
+           'that arrive after the stop and cannot be handled.',
+    'C12': ' Reruns inside the children of a with-items task, without and '
+           'with a concurrency limit.',
+    'C14': ' Accessor-order independence: what an accessor of a (cached) '
+           'specification object returns must not depend on the accessors '
+           'called before (all ordered pairs, against a fresh object).',
+    'C18': ' Populations with 4-6 roots for several batches of surplus.',
+    'C20': ' Ad-hoc actions the checker has to skip fill its batch '
+           '(batch_size 1, 2, 10).',
+}
+HAS_OVERLAP = ('C01', 'C03', 'C04', 'C06', 'C07', 'C11', 'C13', 'C17')
+
 
 def main():
     props = [json.loads(l)['id'] for l in open(os.path.join(ROOT, 'properties.jsonl'))]
@@ -342,9 +390,12 @@ def main():
             'evidence_file': '/verif/evidence/%s.json' % pid,
             'replay_cmd_template': './check %s --replay {path}' % pid,
             'engine': c.get('engine', 'engine-explorer'),
-            'level_claimed': {'category': c['level'], 'text': c['text'],
-                              'design_ref': 'DESIGN.md ' + c['design']},
-            'level_note': c['note'],
+            'level_claimed': {'category': c['level'],
+                              'text': c['text'] + EXTRA_TEXT.get(pid, ''),
+                              'design_ref': 'DESIGN.md ' + c['design'] +
+                              ', 10.3'},
+            'level_note': c['note'] + (OVERLAP if pid in HAS_OVERLAP
+                                       else ''),
             'technique': c['technique'],
         })
     na = [{'property_id': p, 'reason': NA.get(p, NOT_YET)}
@@ -381,7 +432,8 @@ def main():
                                'engine/executor/scheduler under a greenlet '
                                'scheduler, virtual clock and controlled RPC; '
                                'states checkpointed by fork, pruned by '
-                               'canonical-state hash'},
+                               'canonical-state hash; optional read-prefix '
+                               'preemption inside transactions'},
         ],
         'checks': checks,
         'not_applicable': na,
